@@ -669,5 +669,5 @@ func ruleMapOK(c *Ctx) {
 			}
 		})
 	}
-	c.minInstances("uses of per-bucket index objects", n, 40)
+	c.minInstances("uses of per-bucket index objects", n, 20)
 }
